@@ -21,7 +21,10 @@ type LRUOp struct {
 	Kind string `json:"k"`
 	Key  string `json:"key,omitempty"`
 	Val  int    `json:"v,omitempty"`
+	Nil  bool   `json:"nilval,omitempty"` // Store: the value is the nil interface (a legal value; the model records it as -1)
 }
+
+const nilMark = -1
 
 // LRUCase is a whole sequential history on one cache.
 type LRUCase struct {
@@ -77,7 +80,10 @@ func checkLRUCase(c LRUCase) (string, lruStats) {
 			if !ok {
 				name = fmt.Sprintf("?%v", k)
 			}
-			iv, _ := v.(int)
+			iv, isInt := v.(int)
+			if v == nil && !isInt {
+				iv = nilMark
+			}
 			cbLog = append(cbLog, model.KV{K: name, V: iv})
 		})
 	}
@@ -92,8 +98,14 @@ func checkLRUCase(c LRUCase) (string, lruStats) {
 		before := len(m.Removed)
 		switch op.Kind {
 		case "S":
-			cache.Store(gk, op.Val)
-			info := m.Store(op.Key, op.Val)
+			mv := op.Val
+			if op.Nil {
+				cache.Store(gk, nil)
+				mv = nilMark
+			} else {
+				cache.Store(gk, op.Val)
+			}
+			info := m.Store(op.Key, mv)
 			if info.Overwrite {
 				st.overwrite = true
 			}
@@ -109,7 +121,11 @@ func checkLRUCase(c LRUCase) (string, lruStats) {
 			if gok != wok {
 				return fmt.Sprintf("step %d Load(%s): hit=%v, model hit=%v", i, op.Key, gok, wok), st
 			}
-			if wok {
+			if wok && wv == nilMark {
+				if gv != nil {
+					return fmt.Sprintf("step %d Load(%s): value %v, model: the nil value stored last", i, op.Key, gv), st
+				}
+			} else if wok {
 				if iv, ok := gv.(int); !ok || iv != wv {
 					return fmt.Sprintf("step %d Load(%s): value %v, model %d (most recently stored)", i, op.Key, gv, wv), st
 				}
@@ -145,7 +161,11 @@ func checkLRUCase(c LRUCase) (string, lruStats) {
 	// Dump lists exactly the live values (order not asserted here).
 	var want []string
 	for _, e := range m.Ent {
-		want = append(want, fmt.Sprint(e.V))
+		if e.V == nilMark {
+			want = append(want, "") // a nil value is dumped as the empty line
+		} else {
+			want = append(want, fmt.Sprint(e.V))
+		}
 	}
 	var got []string
 	if d := cache.Dump(); d != "" {
@@ -170,7 +190,11 @@ func checkLRUCase(c LRUCase) (string, lruStats) {
 		if gok != wok {
 			return fmt.Sprintf("final sweep Load(%s): hit=%v, model hit=%v", k, gok, wok), st
 		}
-		if wok {
+		if wok && wv == nilMark {
+			if gv != nil {
+				return fmt.Sprintf("final sweep Load(%s): value %v, model: nil", k, gv), st
+			}
+		} else if wok {
 			if iv, ok := gv.(int); !ok || iv != wv {
 				return fmt.Sprintf("final sweep Load(%s): value %v, model %d", k, gv, wv), st
 			}
@@ -295,7 +319,7 @@ func genLRUCase(t *rapid.T, minLen int) LRUCase {
 		}
 		switch rapid.IntRange(0, 9).Draw(t, "op") {
 		case 0, 1, 2, 3:
-			c.Ops = append(c.Ops, LRUOp{Kind: "S", Key: k, Val: i + 1})
+			c.Ops = append(c.Ops, LRUOp{Kind: "S", Key: k, Val: i + 1, Nil: rapid.IntRange(0, 14).Draw(t, "nilVal") == 0})
 		case 4, 5, 6:
 			c.Ops = append(c.Ops, LRUOp{Kind: "L", Key: k})
 		case 7, 8:
